@@ -152,7 +152,7 @@ theorem archive_gate (g : Glue) (h : Bytes) (n : Nat) :
     (g.banned = false → g.ready = true → g.syncRequested = true →
       (consumeGlue (consumeGlue g (.archive h n)).1 (.archive h n)).2.2 = .badMessage) ∧
     (g.banned = false → (g.ready = false ∨ g.syncRequested = false) →
-      (consumeGlue g (.archive h n)).2.2 = .badMessage ∧ (consumeGlue g (.archive h n)).2.1 = []) := by
+      (consumeGlue g (.archive h n)).2.2 = .badMessage ∧ (consumeGlue g (.archive h n)).2.1 = [.receiveReady]) := by
   refine ⟨?_, ?_, ?_⟩
   · cases hb : g.banned <;> cases hr : g.ready <;> cases hs : g.syncRequested <;>
       simp [consumeGlue, hb, hr, hs]
@@ -171,7 +171,7 @@ example (g : Glue) (hb : g.banned = false) (hr : g.ready = true) (h : Bytes) (n 
 /-- **Ping / Pong bookkeeping**: both report the peer's total difficulty and height under the peer's
 address; a Ping is answered with OUR total difficulty and height, a Pong is not answered -/
 theorem ping_pong_bookkeeping (g : Glue) (hb : g.banned = false) (td h : Nat) :
-    consumeGlue g (.ping td h) = (g, [.peerDifficulty g.addr td h], .pong g.td g.height) ∧
+    consumeGlue g (.ping td h) = (g, [.peerDifficulty g.addr td h, .totalDifficulty, .totalHeight], .pong g.td g.height) ∧
     consumeGlue g (.pong td h) = (g, [.peerDifficulty g.addr td h], .none) := by
   constructor <;> simp only [consumeGlue, hb, Bool.false_eq_true, if_false]
 
